@@ -167,3 +167,19 @@ func init() {
 		Thorough:    plan{Builds: []buildCfg{{Race: false, Share: 3}, {Race: false, Tags: []string{"protoopaque"}, Share: 1}, {Race: false, Tags: []string{"protolegacy"}, Share: 1}}, Secs: 600},
 	}
 }
+
+func init() {
+	props["C05"] = &propCfg{
+		Level:                     "exploration",
+		Rule:                      "a scenario is a seeded (type, content); the content is realised as 10-16 messages through different histories (same construction under other map hash seeds, Clone, Merge, eager decode, lazy decode unexpanded and expanded, decode from a legal non-minimal encoding, field-by-field rebuild in shuffled order with set-clear-set / delete-reinsert / grow-past-8-and-shrink detours, dynamicpb decode / rebuild / Clone), each marshalled with Deterministic under three seeds of the Go map iteration order, and for some scenarios in 2-3 re-executions of the worker binary with other process-wide map seeds; evaluations = deterministic marshals compared; non-trivial = scenario produced a non-empty encoding; distinct by hash of (type, shape parameters, reference encoding)",
+		Assumptions:               append([]string{"encodings are compared only among messages of the same concrete type (generated type, or dynamicpb over the same descriptor)", "every Go map in the process is behind the runtime seam (pointer-keyed maps with more than 8 entries excepted, none occur)"}, commonAssumptions...),
+		Components:                comps("process boundary: os/exec of the same worker binary"),
+		Clauses:                   "first sentence: same content => identical Deterministic bytes, across clones, map insertion orders, field-setting orders, repeated marshals, map iteration orders and processes of the same binary",
+		NotDecided:                "second sentence (identical deterministic bytes => proto.Equal): a pure input property, outside this technique",
+		Probes:                    []string{"variants-compared", "lazy-unexpanded-variants"},
+		FaultKinds:                []string{"map-order", "process-restart", "denormalised-wire"},
+		Quick:                     plan{Builds: []buildCfg{{Race: false, Share: 1}}, Secs: 25},
+		Thorough:                  plan{Builds: []buildCfg{{Race: false, Share: 3}, {Race: false, Tags: []string{"protolegacy"}, Share: 1}, {Race: false, Tags: []string{"protoopaque"}, Share: 1}}, Secs: 600},
+		IrreproducibleIsViolation: true,
+	}
+}
